@@ -356,7 +356,12 @@ func runShard(pl Plan, shard, nshard int, outPath, curPath string, deadline time
 			pdl = deadline
 		}
 
-		st := sched.Explore(run, pl.Bound, pdl, 0)
+		bound := pl.Bound
+		if p.Bound > 0 {
+			bound = p.Bound
+		}
+
+		st := sched.Explore(run, bound, pdl, 0)
 
 		so.Programs++
 		so.Executions += st.Executions
@@ -377,7 +382,7 @@ func runShard(pl Plan, shard, nshard int, outPath, curPath string, deadline time
 
 		b := st.BoundCompleted
 		if st.Unbounded {
-			b = pl.Bound
+			b = bound
 		}
 
 		if b < so.MinBound {
